@@ -1,10 +1,10 @@
 /-
-  OFV.Lemmas.ParseFlowStats — the instruction loop of a FlowStats record (multipart reply) terminates when the buffer
-  holds at most 65519 bytes from the record on:
-    * DecodeAction at every nesting depth returns an action whose Len() is stable and at most capacity + 48 (`ActQ`);
-      a conntrack action reports 24 + the sizes of its nested actions;
-    * hence the cursor of the action-list loop of an InstrActions stays below 65536, `InstrActions.Len()` = 8 + Σ does
-      not wrap to 0, and `n += int(instr.Len())` always advances.
+  OFV.Lemmas.ParseFlowStats — the instruction loop of a FlowStats record (multipart reply) terminates on every
+  well-formed slice:
+    * DecodeAction at every nesting depth returns an action whose Len() is stable under a second call (`ActQ`;
+      a conntrack action reports 24 + the sizes of its nested actions);
+    * hence `Len()` of a decoded InstrActions (8 + Σ) is stable too, and the loop — which refuses an instruction of
+      size 0 and then advances by a second `Len()` call — always advances.
 -/
 import OFV.Lemmas.ParseLenAction
 set_option linter.unusedSimpArgs false
@@ -263,22 +263,21 @@ theorem decodeActions_dec (data : Slice) (limit : Nat) (hwf : data.WF) :
 theorem Instruction_lenM_InstrActions (fs : List V) :
     Instruction.lenM (.obj "InstrActions" fs) = InstrActions.lenM (.obj "InstrActions" fs) := rfl
 
-/-- an InstrActions decoded from a slice of capacity below 65488 reports a positive size -/
-theorem InstrActions_unmarshalP_dec (d : Slice) (hwf : d.WF) (hcap : d.buf.length + 48 < 65536) :
-    Post (InstrActions.unmarshalP InstrActions.zero d) (fun p => Post (Instruction.lenM p.1) (fun q => 0 < q.1.toNat)) := by
-  have h8 : (8 : UInt16).toNat = 8 := rfl
+/-- `Len()` of a decoded InstrActions changes nothing: a second call returns the same size -/
+theorem InstrActions_unmarshalP_dec (d : Slice) (hwf : d.WF) :
+    Post (InstrActions.unmarshalP InstrActions.zero d)
+      (fun p => Post (Instruction.lenM p.1) (fun q => Instruction.lenM q.2 = .ok q)) := by
   simp only [InstrActions.unmarshalP, InstrActions.zero]
   apply post_bind_ns (InstrHeader_unmarshal4_ns _ _); intro h _
-  apply post_bind (decodeActions_dec _ _ hwf); intro st _ ⟨ls, hok, hn, hb⟩
+  apply post_bind (decodeActions_dec _ _ hwf); intro st _ ⟨ls, hok, _, _⟩
   apply post_ok
   simp only []
-  rw [Instruction_lenM_InstrActions]
-  simp only [InstrActions.lenM, mapM2_LensOK_self _ _ hok, Res.bind_ok]
-  apply post_ok
-  have hs := sum16_toNat ls (by omega)
-  simp only [UInt16.toNat_add, h8, hs]
-  omega
-
+  have hl : Instruction.lenM (.obj "InstrActions" [h, .bytes [], .list st.xs])
+      = .ok (8 + sum16 ls, .obj "InstrActions" [h, .bytes [], .list st.xs]) := by
+    rw [Instruction_lenM_InstrActions]
+    simp only [InstrActions.lenM, mapM2_LensOK_self _ _ hok, Res.bind_ok]
+  rw [hl]
+  exact post_ok hl
 
 theorem InstrGotoTable_unmarshal_post (recv : V) (d : Slice) :
     Post (InstrGotoTable.unmarshal recv d) (fun v => ∃ fs, v = .obj "InstrGotoTable" fs) := by
@@ -299,9 +298,13 @@ theorem catchErr_post {α} (r : R α) (dflt : α) (P : α → Prop) (h : Post r 
   · exact post_panic
   · exact absurd rfl h.1
 
-/-- every instruction DecodeInstr returns from a slice of capacity below 65488 reports a positive size -/
-theorem DecodeInstr_dec (d : Slice) (hwf : d.WF) (hcap : d.buf.length + 48 < 65536) :
-    Post (DecodeInstr d) (fun i => Post (Instruction.lenM i) (fun q => 0 < q.1.toNat)) := by
+theorem stable_of_eq (v : V) (c : UInt16) (h : Instruction.lenM v = .ok (c, v)) :
+    Post (Instruction.lenM v) (fun q => Instruction.lenM q.2 = .ok q) := by
+  rw [h]; exact post_ok h
+
+/-- every instruction DecodeInstr returns has a stable `Len()`: a second call returns the same size and value -/
+theorem DecodeInstr_dec (d : Slice) (hwf : d.WF) :
+    Post (DecodeInstr d) (fun i => Post (Instruction.lenM i) (fun q => Instruction.lenM q.2 = .ok q)) := by
   unfold DecodeInstr
   apply post_bind_ns (ns_u16In _ _ _); intro t16 _
   extract_lets t
@@ -310,15 +313,15 @@ theorem DecodeInstr_dec (d : Slice) (hwf : d.WF) (hcap : d.buf.length + 48 < 655
     obtain ⟨v, e⟩ := p
     simp only [] at hfs ⊢
     subst hfs
-    exact post_ok (post_ok (by simp only []; decide) : Post (Instruction.lenM (.obj "InstrGotoTable" fs)) _)
+    exact post_ok (stable_of_eq (.obj "InstrGotoTable" fs) _ rfl)
   refine post_ite (fun _ => ?_) (fun _ => ?_)
   · apply post_bind (catchErr_post _ _ _ (InstrWriteMetadata_unmarshal_post _ _) ⟨_, rfl⟩); intro p _ ⟨fs, hfs⟩
     obtain ⟨v, e⟩ := p
     simp only [] at hfs ⊢
     subst hfs
-    exact post_ok (post_ok (by simp only []; decide) : Post (Instruction.lenM (.obj "InstrWriteMetadata" fs)) _)
+    exact post_ok (stable_of_eq (.obj "InstrWriteMetadata" fs) _ rfl)
   refine post_ite (fun _ => ?_) (fun _ => ?_)
-  · apply post_bind (InstrActions_unmarshalP_dec d hwf hcap); intro p _ hp
+  · apply post_bind (InstrActions_unmarshalP_dec d hwf); intro p _ hp
     obtain ⟨v, e⟩ := p
     exact post_ok hp
   refine post_ite (fun _ => ?_) (fun _ => post_panic)
@@ -326,37 +329,40 @@ theorem DecodeInstr_dec (d : Slice) (hwf : d.WF) (hcap : d.buf.length + 48 < 655
     obtain ⟨v, e⟩ := p
     simp only [] at hfs ⊢
     subst hfs
-    exact post_ok (post_ok (by simp only []; decide) : Post (Instruction.lenM (.obj "InstrMeter" fs)) _)
+    exact post_ok (stable_of_eq (.obj "InstrMeter" fs) _ rfl)
 
-/-- THE instruction loop of a FlowStats record terminates when the record lies in a buffer of at most 65519 bytes and
-    the instructions start at offset 48 or later: no decoded instruction can then report the size 0 -/
-theorem decodeInstrs_ns (data : Slice) (limit n0 : Nat) (is0 : List V) (hwf : data.WF)
-    (hcap : data.buf.length ≤ 65519) (hn0 : 48 ≤ n0) : NS (FlowStats.decodeInstrs data limit n0 is0) := by
+/-- THE instruction loop of a FlowStats record terminates on every well-formed slice: an instruction of size 0 is
+    refused, and the second `Len()` call, by which the cursor advances, returns the same non-zero size -/
+theorem decodeInstrs_ns (data : Slice) (limit n0 : Nat) (is0 : List V) (hwf : data.WF) :
+    NS (FlowStats.decodeInstrs data limit n0 is0) := by
   unfold FlowStats.decodeInstrs
   apply post_bind_ns
-  · refine (goLoop_post _ _ _ (fun s => 48 ≤ s.n) (data.len + 1) ?_ _ _ hn0 ?_).ns
-    · intro s hI hc
-      apply post_bind (P := fun ds => ds.WF ∧ s.n ≤ data.len ∧ ds.buf.length = data.buf.length - s.n) ?_ ?_
-      · exact ⟨(ns_fromR _ _).1, fun ds hds =>
-          ⟨(Slice.fromR_wf data hwf _ _ hds).1, (fromR_inv _ _ _ hds).1, fromR_cap _ _ _ hds⟩⟩
+  · refine (goLoop_post _ _ _ (fun _ => True) (data.len + 1) ?_ _ _ trivial ?_).ns
+    · intro s _ hc
+      apply post_bind (P := fun ds => ds.WF ∧ s.n ≤ data.len) ?_ ?_
+      · exact ⟨(ns_fromR _ _).1, fun ds hds => ⟨(Slice.fromR_wf data hwf _ _ hds).1, (fromR_inv _ _ _ hds).1⟩⟩
       intro ds _ hds
-      apply post_bind (DecodeInstr_dec ds hds.1 (by omega)); intro i _ hi
+      apply post_bind (DecodeInstr_dec ds hds.1); intro i _ hi
       apply post_bind hi; intro q _ hq
       obtain ⟨l, i'⟩ := q
-      apply post_ok
       simp only [] at hq ⊢
-      omega
+      split
+      · exact post_err
+      · rename_i hne
+        have : l.toNat ≠ 0 := fun h => hne (UInt16.toNat_inj.mp h)
+        rw [hq]
+        apply post_ok
+        simp only [true_and]
+        omega
     · simp only []; omega
   · intro st _; post_auto
 
-
 /-- the hypothesis of `parse_ns` about FlowStats holds -/
 theorem flowStatsInstrLoopOK : FlowStatsInstrLoopOK :=
-  fun d limit n0 is0 hwf hcap hn0 => decodeInstrs_ns d limit n0 is0 hwf hcap hn0
+  fun d limit n0 is0 hwf => decodeInstrs_ns d limit n0 is0 hwf
 
-/-- Parse never spins on a well-formed frame in a buffer of at most 65535 bytes, given only that the Ethernet decoder
-    does not -/
-theorem parse_ns' (hEth : ∀ recv (d : Slice), d.WF → NS (PEthernet.unmarshal recv d)) (depth : Nat) (b : Slice) (hb : SmallFrame b) :
+/-- Parse never spins on a well-formed slice, given only that the Ethernet decoder does not -/
+theorem parse_ns' (hEth : ∀ recv (d : Slice), d.WF → NS (PEthernet.unmarshal recv d)) (depth : Nat) (b : Slice) (hb : b.WF) :
     NS (parse depth b) := parse_ns hEth flowStatsInstrLoopOK depth b hb
 
 end OFV.Model
